@@ -1278,6 +1278,12 @@ func (s *Server) campaignLeader() {
 		log.Error("failed to get the global TSO allocator", errs.ZapError(err))
 		return
 	}
+	// The Global TSO Allocator serves as soon as it is initialized. It has to synchronize with the Local TSO
+	// Allocator of every dc-location, also of one that joined after this member's last dc-location check.
+	if err := s.tsoAllocatorManager.RefreshClusterDCLocations(); err != nil {
+		log.Error("failed to refresh the cluster dc-locations", errs.ZapError(err))
+		return
+	}
 	log.Info("initializing the global TSO allocator")
 	if err := alllocator.Initialize(0); err != nil {
 		log.Error("failed to initialize the global TSO allocator", errs.ZapError(err))
